@@ -23,7 +23,13 @@ struct cfg {
   int free_drops; /* >0: drops of the first N datagrams cost nothing (all drop subsets) */
   int late_timer; /* offer deadline-1 / deadline+1 timer alternatives */
   int verdict_choice; /* peer verdict is a choice point */
+  int notify;     /* >0: the context is also a server; a raw observer is registered and the script triggers this many
+                     Confirmable notifications (they are created inside coap_io_prepare_io) */
 };
+#define OBS 3 /* "session" index of the raw observer */
+static coap_resource_t *res_o;
+static uint8_t last_r;
+static int tearing_down;
 
 #define MAXMSG 8
 struct msg {
@@ -69,6 +75,8 @@ sess_index_of_peer(const coap_address_t *a) {
   for (int i = 0; i < C->nsess; i++)
     if (ns_addr_host(a) == ns_addr_host(&peer_addr[i]))
       return i;
+  if (C->notify && ns_addr_host(a) == ns_addr_host(&peer_addr[OBS]))
+    return OBS;
   return -1;
 }
 
@@ -90,6 +98,7 @@ prng_hook(void *out, size_t len) {
     r = tab[r_draws % 3];
   r_draws++;
   *(uint8_t *)out = r;
+  last_r = r;
   if (cur_send_msg >= 0)
     msgs[cur_send_msg].r = r;
   return 1;
@@ -112,6 +121,18 @@ on_send(const ns_dgram_t *d) {
     m->mid = mid;
   }
   vx_observe("t=%llu TX s%d type=%d mid=%04x %s%s", (unsigned long long)ns_now(), s, type, mid, hex, in_prepare ? " (timer)" : "");
+  if (!m && s == OBS && (type == COAP_MESSAGE_ACK || tearing_down))
+    return; /* piggybacked answer to the observer's registration; 4.04 to observers when the context is freed */
+  if (!m && s == OBS && type == COAP_MESSAGE_CON && nmsgs < MAXMSG) {
+    /* a Confirmable notification: accepted for sending by the library itself */
+    m = &msgs[nmsgs++];
+    memset(m, 0, sizeof *m);
+    m->used = 1;
+    m->sess = OBS;
+    m->is_con = 1;
+    m->mid = mid;
+    m->r = last_r;
+  }
   if (!m) {
     vx_fail("wire:unexpected-datagram", "datagram type %d mid %04x is not one of the submitted messages", type, mid);
     return;
@@ -128,9 +149,9 @@ on_send(const ns_dgram_t *d) {
     if (m->len != d->len || memcmp(m->bytes, d->data, d->len < sizeof m->bytes ? d->len : sizeof m->bytes))
       vx_fail("retx:not-byte-identical", "retransmission %d of message %d differs from the original", m->ntx, mi);
     if (m->stopped)
-      vx_fail(m->stopped == 2 ? "retx:sent-after-rst" : "retx:sent-after-ack",
-              "message %d (mid %04x) retransmitted at t=%llu after its %s was delivered", mi, mid,
-              (unsigned long long)ns_now(), m->stopped == 2 ? "RST" : "ACK");
+      vx_fail(m->stopped == 2 ? "retx:sent-after-rst" : m->stopped == 3 ? "retx:sent-after-observer-removed" : "retx:sent-after-ack",
+              "message %d (mid %04x) retransmitted at t=%llu after its %s", mi, mid,
+              (unsigned long long)ns_now(), m->stopped == 2 ? "RST was delivered" : m->stopped == 3 ? "observer was removed" : "ACK was delivered");
     if (m->done)
       vx_fail("retx:sent-after-outcome", "message %d retransmitted after terminal outcome %d", mi, m->done);
     if (m->ntx > C->max_retx)
@@ -170,7 +191,7 @@ after_first_send(int mi) {
     return;
   coap_queue_t *q;
   for (q = ctx->sendqueue; q; q = q->next)
-    if (q->session == sess[m->sess] && q->id == m->mid)
+    if ((m->sess == OBS ? ns_addr_host(&q->session->addr_info.remote) == ns_addr_host(&peer_addr[OBS]) : q->session == sess[m->sess]) && q->id == m->mid)
       break;
   if (!q) {
     vx_fail("queue:con-not-queued", "CON message %d (mid %04x) sent but not in the retransmission queue", mi, m->mid);
@@ -182,7 +203,8 @@ after_first_send(int mi) {
   if ((double)m->T < lo - 1.0 || (double)m->T > hi + 1.0)
     vx_fail("timeout:out-of-range", "T=%llu ms outside [ACK_TIMEOUT=%d, ACK_TIMEOUT*ARF=%.1f] (r=%d)",
             (unsigned long long)m->T, C->ato_ms, hi, m->r);
-  else if ((double)m->T < rt - (C->ato_ms / 64.0 + 2.0) || (double)m->T > rt + (C->ato_ms / 64.0 + 2.0)) /* libcoap uses Q.6 fixed point */
+  else if (m->sess != OBS /* the r byte of a notification is not attributable: the server path draws other random bytes */ &&
+           ((double)m->T < rt - (C->ato_ms / 64.0 + 2.0) || (double)m->T > rt + (C->ato_ms / 64.0 + 2.0))) /* libcoap uses Q.6 fixed point */
     vx_fail("timeout:formula", "T=%llu ms but ACK_TIMEOUT*(1+(ARF-1)*r/256)=%.2f (r=%d)", (unsigned long long)m->T, rt,
             m->r);
   m->next_deadline = m->tx_at[0] + m->T;
@@ -252,6 +274,8 @@ nack_handler(coap_session_t *session, const coap_pdu_t *sent, const coap_nack_re
   for (int i = 0; i < C->nsess; i++)
     if (sess[i] == session)
       s = i;
+  if (s < 0 && C->notify && ns_addr_host(coap_session_get_addr_remote(session)) == ns_addr_host(&peer_addr[OBS]))
+    s = OBS;
   vx_observe("t=%llu NACK s%d reason=%d mid=%04x sent=%s", (unsigned long long)ns_now(), s, reason, mid, sent ? "pdu" : "null");
   if (!sent)
     return; /* notification about a stray RST, not the outcome of a message (see DESIGN C06) */
@@ -268,6 +292,16 @@ nack_handler(coap_session_t *session, const coap_pdu_t *sent, const coap_nack_re
              reason == COAP_NACK_RST ? "NACK_RST" : reason == COAP_NACK_TOO_MANY_RETRIES ? "NACK_GIVEUP" : "NACK_OTHER");
     vx_fail(sig, "message %d got NACK reason %d after terminal outcome %d", mi, reason, m->done);
     return;
+  }
+  if (s == OBS && (reason == COAP_NACK_RST || reason == COAP_NACK_TOO_MANY_RETRIES)) {
+    /* the observation ends with this notification: the library withdraws every other notification still queued for
+     * that observer (nothing may be sent to a removed observer, C11); they end without a call of their own */
+    for (int i = 0; i < nmsgs; i++)
+      if (&msgs[i] != m && msgs[i].used && msgs[i].sess == OBS && msgs[i].done <= 0) {
+        msgs[i].done = 5;
+        msgs[i].stopped = 3;
+        expect_tx[i] = expect_nack[i] = 0;
+      }
   }
   if (reason == COAP_NACK_RST) {
     if (m->done != -2)
@@ -287,6 +321,15 @@ nack_handler(coap_session_t *session, const coap_pdu_t *sent, const coap_nack_re
   }
 }
 
+static void
+hnd_o(coap_resource_t *r, coap_session_t *session, const coap_pdu_t *req, const coap_string_t *q, coap_pdu_t *resp) {
+  (void)r;
+  (void)session;
+  (void)req;
+  (void)q;
+  coap_pdu_set_code(resp, COAP_RESPONSE_CODE_CONTENT);
+  coap_add_data(resp, 1, (const uint8_t *)"v");
+}
 static coap_response_t
 resp_handler(coap_session_t *session, const coap_pdu_t *sent, const coap_pdu_t *received, const coap_mid_t mid) {
   (void)session;
@@ -316,6 +359,13 @@ build_script(void) {
     script[nscript++] = (struct op){0, i % C->nsess, 0};
     if (i == 0 && C->with_non)
       script[nscript++] = (struct op){1, 0, 0};
+    if (i < C->notify)
+      script[nscript++] = (struct op){3, OBS, 0};
+  }
+  for (int i = C->nreq; i < C->notify; i++) {
+    if (i > 0 && C->stagger)
+      script[nscript++] = (struct op){2, 0, 700};
+    script[nscript++] = (struct op){3, OBS, 0};
   }
 }
 static int
@@ -335,6 +385,12 @@ app_op(void *a) {
     /* the application sleeps without servicing the library; the next prepare is late for deadlines in between */
     ns_advance((uint64_t)o->arg);
     vx_observe("t=%llu app waited %d ms", (unsigned long long)ns_now(), o->arg);
+    return;
+  }
+  if (o->kind == 3) {
+    /* resource change: the notification is built and sent by the next coap_io_prepare_io() */
+    coap_resource_notify_observers(res_o, NULL);
+    vx_observe("t=%llu app: resource changed", (unsigned long long)ns_now());
     return;
   }
   int mi = nmsgs++;
@@ -501,6 +557,7 @@ static void
 run(void *arg) {
   C = arg;
   ns_init();
+  tearing_down = 0;
   nmsgs = 0;
   script_pos = 0;
   r_draws = 0;
@@ -525,6 +582,32 @@ run(void *arg) {
     coap_session_set_nstart(sess[i], (uint16_t)C->nstart);
     if (coap_session_get_max_retransmit(sess[i]) != C->max_retx)
       vx_fail("harness:setter", "max_retransmit not applied");
+  }
+  if (C->notify) {
+    coap_address_t la;
+    ns_addr(&la, 1, 5683);
+    ns_addr(&peer_addr[OBS], 2 + OBS, 5683);
+    coap_endpoint_t *ep = coap_new_endpoint(ctx, &la, COAP_PROTO_UDP);
+    res_o = coap_resource_init(coap_make_str_const("o"), COAP_RESOURCE_FLAGS_NOTIFY_CON);
+    coap_register_request_handler(res_o, COAP_REQUEST_GET, hnd_o);
+    coap_resource_set_get_observable(res_o, 1);
+    coap_add_resource(ctx, res_o);
+    /* the raw observer registers */
+    static const uint8_t reg[] = {0x41, 0x01, 0x77, 0x01, 0xEE, 0x60, 0x51, 'o'};
+    ns_inject_now(&peer_addr[OBS], &la, reg, sizeof reg);
+    coap_session_t *ss = ep ? coap_session_get_by_peer(ctx, &peer_addr[OBS], 0) : NULL;
+    if (!ss && ep)
+      for (ss = ep->sessions; ss && ns_addr_host(&ss->addr_info.remote) != ns_addr_host(&peer_addr[OBS]); ss = ss->hh.next)
+        ;
+    if (ss) {
+      coap_session_set_ack_timeout(ss, (coap_fixed_point_t){(uint16_t)(C->ato_ms / 1000), (uint16_t)(C->ato_ms % 1000)});
+      coap_session_set_ack_random_factor(ss, (coap_fixed_point_t){(uint16_t)(C->arf_milli / 1000), (uint16_t)(C->arf_milli % 1000)});
+      coap_session_set_max_retransmit(ss, (uint16_t)C->max_retx);
+      coap_session_set_nstart(ss, 4);
+    } else
+      vx_fail("harness:observer-session", "no server session for the raw observer");
+    while (ns_inflight_count())
+      ns_drop(0); /* the registration response */
   }
   int steps = 0;
   while (steps++ < 400 && step())
@@ -552,6 +635,7 @@ run(void *arg) {
   vx_outcome("%s", oc);
   for (int i = 0; i < C->nsess; i++)
     coap_session_release(sess[i]);
+  tearing_down = 1;
   ns_unregister_ctx(ctx);
   coap_free_context(ctx);
   ns_fini();
@@ -562,9 +646,9 @@ static int ncfgs;
 static void
 add(struct cfg c) {
   cfgs = realloc(cfgs, sizeof *cfgs * (size_t)(ncfgs + 1));
-  snprintf(c.name, sizeof c.name, "c06:ato=%d,arf=%d,mr=%d,nreq=%d,nsess=%d,nstart=%d,non=%d,ans=%d%c,r=%d,stag=%d,fd=%d,late=%d,vc=%d,B=%d",
+  snprintf(c.name, sizeof c.name, "c06:ato=%d,arf=%d,mr=%d,nreq=%d,nsess=%d,nstart=%d,non=%d,ans=%d%c,r=%d,stag=%d,fd=%d,late=%d,vc=%d,nfy=%d,B=%d",
            c.ato_ms, c.arf_milli, c.max_retx, c.nreq, c.nsess, c.nstart, c.with_non, c.answer_from, c.verdict, c.rsel,
-           c.stagger, c.free_drops, c.late_timer, c.verdict_choice, c.bound);
+           c.stagger, c.free_drops, c.late_timer, c.verdict_choice, c.notify, c.bound);
   cfgs[ncfgs++] = c;
 }
 
@@ -613,10 +697,21 @@ main(int argc, char **argv) {
             c.bound = 1;
           add(c);
         }
+  /* (4) Confirmable notifications: created inside coap_io_prepare_io() while requests share the send queue */
+  for (int nr = 0; nr <= 1; nr++)
+    for (int nn = 1; nn <= 2; nn++)
+      for (int st = 0; st < 2; st++)
+        for (int k = 0; k < 3; k++) {
+          struct cfg c = {.ato_ms = 2000, .arf_milli = 1500, .max_retx = k == 2 ? 2 : 4, .nreq = nr, .nsess = 1, .nstart = 1, .with_non = 0,
+                          .answer_from = k == 0 ? 0 : k == 1 ? 1 : 99, .verdict = 'A', .rsel = 3, .stagger = st, .bound = T ? 2 : 1,
+                          .late_timer = 1, .verdict_choice = 1, .notify = nn};
+          add(c);
+        }
   vx_ev_rule("executions of a real libcoap client context against raw peers under a virtual clock; enumerated: "
              "configuration product (ACK_TIMEOUT x ACK_RANDOM_FACTOR x MAX_RETRANSMIT x r byte x peer-silence length x verdict), "
              "all 2^10 drop subsets of the first 10 datagrams, and all schedules with <= bound deviations "
-             "(drop/dup/reorder/timer-first/timer +-1ms/other peer verdict) for multi-message scripts; an execution is "
+             "(drop/dup/reorder/timer-first/timer +-1ms/other peer verdict) for multi-message scripts, also with 1-2 Confirmable observe notifications (created inside coap_io_prepare_io by the same context acting "
+             "as server for a raw observer) sharing the send queue; an execution is "
              "non-trivial when a retransmission, give-up or deviation occurred; distinct = distinct observation logs");
   vx_ev_assumption("peers are raw addresses driven by the harness; no ping_timeout configured (libcoap then deliberately caps the retransmission delay)");
   vx_ev_assumption("a nack_handler call with sent==NULL (stray RST notification) is not counted as an outcome of a message");
